@@ -2,5 +2,7 @@ SPECIFICATION Spec
 CONSTANTS Channels = {1, 2}
           MaxPays = 2
           RERANDOMIZE = FALSE
+          LEAK = FALSE
 PROPERTY NoReuse
+INVARIANT NoSecretLeak
 CHECK_DEADLOCK FALSE
